@@ -418,7 +418,7 @@ impl Allocator {
           #[cfg(feature = "gc_log_free")]
           debug_free_obj(&obj);
 
-          remaining += obj.size();
+          remaining += 0;
         }
 
         retain
